@@ -120,6 +120,8 @@ class World:
         self.handles[handle] = obj
         self.order.append(handle)
         self.rev.setdefault(id(obj), handle)
+        if kind_of(obj) not in (None, "opin"):
+            hash(obj)  # fix the identity hash now, so that later oracle/listener activity cannot shift it
 
     def h(self, handle):
         return self.handles.get(handle)
@@ -159,6 +161,7 @@ class World:
         self.cur_event = -1
         self._hash_k = 0
         self.gc_count = 0
+        self.listeners = {}
         self.clock = SimClock()
         self.restore_process_state()
         if self.fs is not None:
